@@ -193,7 +193,7 @@ func isPrivateBase(v ssa.Value) bool {
 	case *ssa.Alloc:
 		return true
 	case *ssa.Call:
-		if cal := calleeOf(&x.Call); cal != nil && (cal.Name() == "copy" || cal.Name() == "newExecution") {
+		if cal := calleeOf(&x.Call); cal != nil && (canonName(cal) == "copy" || canonName(cal) == "newExecution") {
 			return true
 		}
 	case *ssa.FieldAddr:
@@ -246,7 +246,7 @@ func invokeOn(cc *ssa.CallCommon, pkg string, ifaces []string) bool {
 		return false
 	}
 	for _, i := range ifaces {
-		if n.Obj().Name() == i {
+		if typeCanonName(n.Obj()) == i {
 			return true
 		}
 	}
@@ -456,7 +456,7 @@ func checkGuarded(c *Ctx, spec guardSpec) {
 		}
 		// methods of the guarded objects themselves (states, stats) are internal even if capitalised? none are.
 		if rn := namedOfPtr(recvType(fn)); rn != nil {
-			if fs := spec.fields[rn.Obj().Name()]; fs != nil && fs["*"] {
+			if fs := spec.fields[typeCanonName(rn.Obj())]; fs != nil && fs["*"] {
 				continue // method of a guarded object: runs under its owner's lock (callers checked)
 			}
 		}
@@ -754,7 +754,7 @@ func c14LockInventory(c *Ctx) {
 					continue
 				}
 				n++
-				id := lockID{pk.Types.Name(), tn.Name(), st.Field(i).Name()}.String()
+				id := lockID{pk.Types.Name(), typeCanonName(tn), st.Field(i).Name()}.String()
 				if s == "sync.RWMutex" {
 					c.Fail(id, "", "a reader/writer mutex guards this state: the lock-set rules assume exclusive locks (a read lock does not protect the state transitions done by permit requests)", "")
 					continue
@@ -1410,7 +1410,7 @@ func c14LiveReads(c *Ctx) {
 						continue
 					}
 				} else if cal := calleeOf(cc.Common()); cal != nil && cal.Signature.Recv() != nil {
-					if rn := namedOfPtr(cal.Signature.Recv().Type()); rn != nil && rn.Obj().Name() == "execution" {
+					if rn := namedOfPtr(cal.Signature.Recv().Type()); rn != nil && typeCanonName(rn.Obj()) == "execution" {
 						name = cal.Name()
 					}
 				}
